@@ -32,11 +32,14 @@ type victim struct {
 
 var victims = []victim{
 	{Kind: "add", Inits: []string{"empty", "one", "three"}, NoAuto: true},
-	{Kind: "addauto", Inits: []string{"one", "two", "four"}},
+	{Kind: "addauto", Inits: []string{"one", "two", "four", "cancel", "high2"}},
 	{Kind: "addition2", Inits: []string{"empty", "two"}, NoAuto: true},
-	{Kind: "compactall", Inits: []string{"two", "three", "four"}, NoAuto: true},
+	{Kind: "addition3", Inits: []string{"one", "cancel"}, NoAuto: true},
+	{Kind: "addempty", Inits: []string{"one"}, NoAuto: true},
+	{Kind: "compactall", Inits: []string{"two", "three", "four", "cancel", "high2"}, NoAuto: true},
 	{Kind: "expiry", Inits: []string{"two", "four"}, NoAuto: true},
 	{Kind: "range", Inits: []string{"three", "four"}, NoAuto: true},
+	{Kind: "range01", Inits: []string{"cancel"}, NoAuto: true},
 	{Kind: "clean", Inits: []string{"empty", "two", "orphans"}, NoAuto: true},
 	{Kind: "close", Inits: []string{"two", "orphans"}, NoAuto: true},
 }
@@ -98,6 +101,28 @@ func runVictim(w *mc.World, p *mc.Proc, st *reftable.Stack, kind string, cfg ref
 			}
 		}
 		return hx.ErrString(tr.Commit()), after, true
+	case "addition3":
+		ui := st.NextUpdateIndex()
+		tr, err := st.NewAddition()
+		if err != nil {
+			return hx.ErrString(err), after, true
+		}
+		defer tr.Close()
+		for i, id := range []string{"v1", "v2", "v3"} {
+			t := stk.Txn(id)
+			u := ui + uint64(i)
+			if err := tr.Add(func(wr *reftable.Writer) error { return t.Write(wr, u, hs) }); err != nil {
+				return hx.ErrString(err), after, true
+			}
+		}
+		return hx.ErrString(tr.Commit()), after, true
+	case "addempty":
+		t := stk.Txn("empty")
+		err := st.Add(func(wr *reftable.Writer) error { return t.Write(wr, st.NextUpdateIndex(), hs) })
+		return hx.ErrString(err), before, false
+	case "range01":
+		_, err := st.VerifCompactRange(0, 1, nil)
+		return hx.ErrString(err), before, false
 	case "compactall":
 		return hx.ErrString(st.CompactAll(nil)), before, false
 	case "expiry":
@@ -421,6 +446,8 @@ func planAfter(st *reftable.Stack, kind string, cfg reftable.Config, before *ref
 		return put(before, "v", ui)
 	case "addition2":
 		return put(put(before, "v1", ui), "v2", ui+1)
+	case "addition3":
+		return put(put(put(before, "v1", ui), "v2", ui+1), "v3", ui+2)
 	case "expiry":
 		return before.Expire(900, 0, 0)
 	}
